@@ -421,7 +421,7 @@ func TestC19(t *testing.T) {
 			os.Remove(c19Log)
 		}
 	}()
-	rec.SetExtra("rule", "rapid sets of 2-8 goroutine scripts of 3-15 operations over one shared token (built or reloaded from bytes, authority table with spare capacity), shared biscuit.Fact / Rule / Check / Policy values and one shared parser.Parser: AuthorizerFor + shared content + Authorize, Query, signature verification alone, String, Code, GetBlockID with a fresh symbol, CreateBlock+add+Build, Append, Seal, Serialize, RevocationIds, parser.Fact / Rule / Check; start barrier, GOMAXPROCS in {2,4,16}, drawn Gosched points; every script set runs 20 times. Executed in a worker built with -race (GORACE=halt_on_error=1 exitcode=66). Oracle: no race report, and every operation's canonical result equals the result of the same script run alone on a private copy of the token (derivations use per-operation deterministic random streams). Non-trivial = at least two goroutines, one deriving (append / seal / create block / fact lookup) while another verifies, authorizes, queries, prints or serializes; distinct by (scripts, token, GOMAXPROCS).")
+	rec.SetExtra("rule", "rapid sets of 2-8 goroutine scripts of 3-15 operations over one shared token (1-8 blocks, built or reloaded from bytes, authority table with spare capacity), shared biscuit.Fact / Rule / Check / Policy values and one shared parser.Parser: AuthorizerFor + shared content + Authorize, Query, signature verification alone, String, Code, GetBlockID with a fresh symbol, CreateBlock+add+Build, Append, Seal, Serialize, RevocationIds, parser.Fact / Rule / Check; start barrier, GOMAXPROCS in {2,4,16}, drawn Gosched points; every script set runs 20 times. Executed in a worker built with -race (GORACE=halt_on_error=1 exitcode=66). Oracle: no race report, and every operation's canonical result equals the result of the same script run alone on a private copy of the token (derivations use per-operation deterministic random streams). Non-trivial = at least two goroutines, one deriving (append / seal / create block / fact lookup) while another verifies, authorizes, queries, prints or serializes; distinct by (scripts, token, GOMAXPROCS).")
 	rec.SetExtra("assumptions", []string{"the harness does not own the scheduler: the race detector reports unsynchronised access pairs whatever the timing, wrong results without a data race are only sampled", "a worker that exceeds 120 s is inconclusive"})
 	harness.RunWith(t, harness.Spec[C19Case]{ID: "C19", Draw: drawC19, Check: checkC19}, rec)
 }
